@@ -212,6 +212,20 @@ def gen_workflow(rng: random.Random, opts=None):
     seq_tasks = [t for t in sorted(mentioned) if rng.random() < opts.get('p_sequential', 0.12)]
     if seq_tasks:
         special = '    [[special tasks]]\n        sequential = ' + ', '.join(seq_tasks) + '\n'
+    if seq_tasks and opts.get('p_seqfam') and rng.random() < opts['p_seqfam']:
+        # C31 (additive, no random draw unless the option is set): the tasks are declared sequential through a FAMILY
+        # name; each of them inherits the family SEQ as first, second or only parent (multiple inheritance with BATCH)
+        special = '    [[special tasks]]\n        sequential = SEQ\n'
+        fam_txt = '    [[BATCH]]\n    [[SEQ]]\n'
+        for t in seq_tasks:
+            inh = rng.choice(['BATCH, SEQ', 'BATCH, SEQ', 'SEQ, BATCH', 'SEQ'])
+            head = f'    [[{t}]]\n'
+            line = f'        inherit = {inh}\n'
+            if head in runtime:
+                runtime = runtime.replace(head, head + line, 1)
+            else:
+                runtime += head + line
+        runtime = fam_txt + runtime
     stop_line = ''
     if fcp - icp >= 2 and rng.random() < opts.get('p_stop', 0.15):
         stop_line = f'    stop after cycle point = {rng.randint(icp, fcp - 1)}\n'
